@@ -210,6 +210,28 @@ def s_siblings(cx, rule, only=None):
             for a, b in sorted(sub.items(), key=lambda kv: -len(kv[0])):
                 s = s.replace(a, b)
             s = re.sub(r'\b_\d+@in', 'tmp@in', s)
+            if not use_sum:
+                # iteration bookkeeping is not structure: which local is the counter or the element binding, how the
+                # exhaustion of a finite iterator is tested, the name of the array that is filled and returned
+                ls0 = s.split('\n')
+                stored = {m_.group(1) for m_ in (re.match(r'^store ([\w.]+)\[', l) for l in ls0) if m_}
+                out0 = []
+                for l in ls0:
+                    if re.match(r"^loop [\w.']+' = (phi\()?each\((rev\()?Range::Range\{", l) or re.match(r"^loop [\w.']+' = [^\[\]]*\[each\((rev\()?Range::Range\{0, \d+\}\)?\)\]$", l):
+                        continue
+                    if re.match(r'^exit on discr\(next\(into_iter\((rev\()?(Range::Range\{\d+, \d+\}|iter(_mut)?\()', l):
+                        continue
+                    m_ = re.match(r'^ret \[(.*)\] => (.*)$', l)
+                    if m_:
+                        conds = [c_ for c_ in re.findall(r"'([^']*)'", m_.group(1)) if not c_.startswith('discr(next(')]
+                        v_ = m_.group(2)
+                        if len(stored) == 1 and (v_ in stored or v_ == 'repeat{0}'):
+                            v_ = '<the filled array>'
+                        l = 'ret %s => %s' % (conds, v_)
+                    if len(stored) == 1:
+                        l = re.sub(r'^store [\w.]+\[', 'store A[', l)
+                    out0.append(l)
+                s = '\n'.join(out0)
             # identity transfers of (possibly unused) loop-local bindings carry no information
             s = '\n'.join(l for l in s.split('\n') if not re.match(r"^loop (\w+)' = \1@in$", l) and not re.match(r"^loop (\w+)' = (phi\()?each\(Range", l))
             # parameter names are irrelevant
